@@ -8,6 +8,12 @@ from unittest import mock
 real_repr = repr
 
 
+def type_name(type):
+    # "f.<locals>.A" is no expression, a class which is defined inside of
+    # a function can only be referenced by its name (inside of this function)
+    return type.__qualname__.rpartition("<locals>.")[2]
+
+
 class HasRepr:
     """This class is used for objects where `__repr__()` returns an non-
     parsable representation.
@@ -24,7 +30,7 @@ class HasRepr:
         self._str_repr = str_repr
 
     def __repr__(self):
-        return f"HasRepr({self._type.__qualname__}, {self._str_repr!r})"
+        return f"HasRepr({type_name(self._type)}, {self._str_repr!r})"
 
     def __eq__(self, other):
         if isinstance(other, HasRepr):
@@ -108,7 +114,7 @@ def value_code_repr(obj):
 # -8<- [start:Enum]
 @customize_repr
 def _(value: Enum):
-    return f"{type(value).__qualname__}.{value.name}"
+    return f"{type_name(type(value))}.{value.name}"
 
 
 # -8<- [end:Enum]
@@ -116,7 +122,7 @@ def _(value: Enum):
 
 @customize_repr
 def _(value: Flag):
-    name = type(value).__qualname__
+    name = type_name(type(value))
     return " | ".join(
         f"{name}.{flag.name}" for flag in type(value) if flag in value
     ) or f"{name}({value.value!r})"
@@ -174,4 +180,4 @@ def _(value: frozenset):
 
 @customize_repr
 def _(value: type):
-    return value.__qualname__
+    return type_name(value)
